@@ -2,6 +2,7 @@ package main
 
 import (
 	"fmt"
+	"sync"
 	"math/rand"
 
 	"github.com/yaricom/goNEAT/v4/neat/genetics"
@@ -28,7 +29,7 @@ func init() {
 			return 48000
 		},
 		Run:      runC13,
-		Required: []string{"pairs.std", "pairs.fast", "pairs.recurrent", "pairs.modular", "pairs.with_time_delayed_links", "history.ended_in_error", "history.changed_outputs", "evaluate_twice"},
+		Required: []string{"pairs.std", "pairs.fast", "pairs.recurrent", "pairs.modular", "pairs.with_time_delayed_links", "history.ended_in_error", "history.failed_for_unregistered_activation", "history.changed_outputs", "evaluate_twice"},
 	})
 }
 
@@ -142,7 +143,72 @@ func sameResult(a, b opResult) bool {
 	return a.Ok == b.Ok && a.Err == b.Err && a.Val == b.Val && vecBitsEqual(a.Outs, b.Outs)
 }
 
+var c13RecoveryOnce sync.Once
+
+// c13FailedActivationThenFlush: a history that ends in a failed activation for a reason outside the network - a neuron uses
+// an activation type the application has not registered yet; the application then registers it, flushes and goes on. It
+// can be staged once per process only (the registry is process-wide).
+func c13FailedActivationThenFlush(c *Ctx) {
+	r := c.G
+	const custom = neatmath.NodeActivationType(41)
+	o := netGenOpts{maxIn: 2, maxBias: 1, maxHid: 6, minHid: 4, maxOut: 3, edgeProb: 0.3, weightScale: 1.0, reachable: true, chain: true,
+		acts: []neatmath.NodeActivationType{neatmath.LinearActivation, neatmath.TanhActivation}}
+	s := genNet(r, o)
+	s.Acts[s.sensors()] = custom // the first hidden neuron of the chain, several links away from the outputs
+	mk := func(fast bool) (network.Solver, *network.Network) {
+		net := s.build()
+		if fast {
+			fs, err := net.FastNetworkSolver()
+			if err != nil {
+				panic("harness: " + err.Error())
+			}
+			return fs, net
+		}
+		return net, net
+	}
+	usedFast, usedFastNet := mk(true)
+	usedStd, usedStdNet := mk(false)
+	in := randInputs(r, s.NIn, 1.5)
+	failed := 0
+	for _, op := range []progOp{{Kind: "load", Vec: in}, {Kind: "recursive"}, {Kind: "forward", Arg: 2}} {
+		if res := runOp(usedFast, usedFastNet, op); res.Err != "" {
+			failed++
+		}
+		if res := runOp(usedStd, usedStdNet, op); res.Err != "" {
+			failed++
+		}
+	}
+	if failed == 0 {
+		return // the type is known already in this process
+	}
+	c.Count("history.failed_for_unregistered_activation", 1)
+	neatmath.NodeActivators.Register(custom, func(x float64, _ []float64) float64 { return 0.5 * x }, "C13LateActivation")
+	for _, fast := range []bool{true, false} {
+		used, usedNet := usedStd, usedStdNet
+		if fast {
+			used, usedNet = usedFast, usedFastNet
+		}
+		fresh, freshNet := mk(fast)
+		if ok, err := used.Flush(); err != nil || !ok {
+			c.Violate("flush-error", map[string]interface{}{"network": s.full()}, "Flush failed after a failed activation: %v %v", ok, err)
+			return
+		}
+		Q := genProgram(r, s.NIn, fast, 5)
+		c.Eval(1)
+		for i, op := range Q {
+			a, b := runOp(used, usedNet, op), runOp(fresh, freshNet, op)
+			if !sameResult(a, b) {
+				c.Violate("flushed-differs-from-fresh", map[string]interface{}{"network": s.full(), "fast_solver": fast, "suffix": Q, "step": i,
+					"history": "load, recursive, forward(2) while the activation type of a hidden neuron was not registered yet (all failed); the type was registered then"},
+					"after activations that failed for an unregistered activation type, its registration and a flush, step %d (%s): flushed instance gives %+v, fresh instance gives %+v", i, op.Kind, a, b)
+				return
+			}
+		}
+	}
+}
+
 func runC13(c *Ctx, idx int) {
+	c13RecoveryOnce.Do(func() { c13FailedActivationThenFlush(c) })
 	r := c.G
 	n := 80
 	if c.Tier == "thorough" {
